@@ -15,12 +15,164 @@ package lexer
 //@ func newToken
 //@   ensures[C11] fields: result.value == value && result.tokenType == tokenType && result.row == row && result.column == column
 //
+// specWordCode: a letter, a digit or an underscore (what may continue an identifier).
+func specWordCode(b byte) bool {
+	return b == '_' || (b >= '0' && b <= '9') || (b >= 'a' && b <= 'z') || (b >= 'A' && b <= 'Z')
+}
+
+// What each kind of token is made of, asserted where the token is created (src is the source
+// after CRLF normalisation, ogI the index of the token's first byte, arg0/arg1 the value and type
+// handed to newToken): a block comment is the text up to the FIRST terminator, a line comment
+// stops at the line break, true/false are words of their own, an identifier or reserved word is
+// the maximal run of letters, digits and underscores and starts with a letter or underscore.
+//@ define src(): strings.ReplaceAll(source, "\r\n", "\n")
 //@ func Tokenize
+//@   callsite newToken requires[C11,C12] block-comment-ends-at-its-first-terminator: arg1 == COMMENT && hasPrefix(src()[ogI:], "/*") ==> strings.Index(src()[ogI+2:], "*/") >= 0 && arg0 == src()[ogI+2 : ogI+2+strings.Index(src()[ogI+2:], "*/")]
+//@   callsite newToken requires[C11,C12] line-comment-stops-at-the-line-break: arg1 == COMMENT && hasPrefix(src()[ogI:], "//") ==> !contains(arg0, "\n") && hasPrefix(src()[ogI+2:], arg0) && (ogI + 2 + len(arg0) == len(src()) || src()[ogI+2+len(arg0)] == 10)
+//@   callsite newToken requires[C11] true-and-false-are-whole-words: arg1 == BOOL_LITERAL ==> (arg0 == "true" || arg0 == "false") && hasPrefix(src()[ogI:], arg0) && (ogI + len(arg0) == len(src()) || !specWordCode(src()[ogI+len(arg0)]))
+//@   callsite newToken requires[C11] words-are-maximal: arg1 == IDENTIFIER || (arg1 != UNKNOWN && arg1 == specKeywordType(arg0)) ==> len(arg0) >= 1 && arg0 == src()[ogI : ogI+len(arg0)] && !(arg0[0] >= 48 && arg0[0] <= 57) && (ogI + len(arg0) == len(src()) || !specWordCode(src()[ogI+len(arg0)]))
+//@   loop 3 invariant[C11] word-so-far: ogI <= i && i <= len(src()) && identifier == src()[ogI:i]
 //@   loop 1 invariant[C11,C12,C13] index-within-normalised-source: 0 <= i && i <= len(strings.ReplaceAll(source, "\r\n", "\n"))
 //@   loop 1 invariant[C11,C12] no-blank-or-comment-token: forall(k, 0, len(tokens), tokens[k].tokenType != SPACE && tokens[k].tokenType != COMMENT && tokens[k].tokenType != UNKNOWN)
 //@   loop 1 invariant[C11] rows-start-at-one: row >= 1
+//@   loop 1 invariant[C11] the-tables-are-the-grammar: forall(k, 0, len(nonAlphabeticTokens), specSymbolType(nonAlphabeticTokens[k].value) != UNKNOWN && nonAlphabeticTokens[k].tokenType == specSymbolType(nonAlphabeticTokens[k].value)) && forallstr(s, has(keywords, s) == (specKeywordType(s) != UNKNOWN) && (has(keywords, s) ==> get(keywords, s) == specKeywordType(s)))
+//@   loop 1 invariant[C11] identifiers-are-not-reserved-words-and-symbols-are-what-they-spell: forall(k, 0, len(tokens), (tokens[k].tokenType == IDENTIFIER ==> specKeywordType(tokens[k].value) == UNKNOWN) && (specIsSymbolType(tokens[k].tokenType) ==> specSymbolType(tokens[k].value) == tokens[k].tokenType))
 //@   loop 2 invariant[C11,C13] index-within-normalised-source: 0 <= i && i <= len(strings.ReplaceAll(source, "\r\n", "\n"))
 //@   loop 2 exit[C11] scanner-gives-up-only-at-end-of-input: i >= len(strings.ReplaceAll(source, "\r\n", "\n"))
 //@   loop 3 invariant[C11,C13] index-within-normalised-source: 0 <= i && i <= len(strings.ReplaceAll(source, "\r\n", "\n"))
 //@   ensures[C11,C13] always-ends-with-eof: err == nil ==> len(result0) >= 1 && result0[len(result0) - 1].tokenType == EOF && result0[len(result0) - 1].value == ""
+//@   ensures[C11] identifiers-are-not-reserved-words-and-symbols-are-what-they-spell: forall(k, 0, len(result0) - 1, (result0[k].tokenType == IDENTIFIER ==> specKeywordType(result0[k].value) == UNKNOWN) && (specIsSymbolType(result0[k].tokenType) ==> specSymbolType(result0[k].value) == result0[k].tokenType))
 //@   ensures[C11,C12] no-blank-or-comment-token: forall(k, 0, len(result0) - 1, result0[k].tokenType != SPACE && result0[k].tokenType != COMMENT && result0[k].tokenType != UNKNOWN)
+
+// ----------------------------------------------------------------------------
+// The token grammar's two tables, written from the README's list of operators, separators and
+// reserved words (not from the tables in lexer.go): the kind of token each spelling denotes.
+
+// specSymbolType: the token type of an operator / separator spelling, UNKNOWN if it is none.
+func specSymbolType(s string) TokenType {
+	switch s {
+	case "(":
+		return OPENING_ROUND_BRACKET
+	case ")":
+		return CLOSING_ROUND_BRACKET
+	case "[":
+		return OPENING_SQUARE_BRACKET
+	case "]":
+		return CLOSING_SQUARE_BRACKET
+	case "{":
+		return OPENING_CURLY_BRACKET
+	case "}":
+		return CLOSING_CURLY_BRACKET
+	case "==", "!=", "<=", ">=", "<", ">":
+		return COMPARE_OPERATOR
+	case "&&", "||":
+		return LOGICAL_OPERATOR
+	case "+=", "-=", "*=", "/=", "%=":
+		return COMPOUND_ASSIGN_OPERATOR
+	case "=":
+		return ASSIGN_OPERATOR
+	case ":=":
+		return SHORT_INIT_OPERATOR
+	case "++":
+		return INCREMENT_OPERATOR
+	case "--":
+		return DECREMENT_OPERATOR
+	case "!":
+		return UNARY_OPERATOR
+	case "+", "-", "*", "/", "%":
+		return BINARY_OPERATOR
+	case ",":
+		return COMMA
+	case ":":
+		return COLON
+	case ";":
+		return SEMICOLON
+	case ".":
+		return DOT
+	case " ", "\t":
+		return SPACE
+	case "@":
+		return AT
+	case "|":
+		return PIPE
+	case "\n":
+		return NEWLINE
+	}
+	return UNKNOWN
+}
+
+// specIsSymbolType: the token types that only operators and separators have.
+func specIsSymbolType(t TokenType) bool {
+	switch t {
+	case OPENING_ROUND_BRACKET, CLOSING_ROUND_BRACKET, OPENING_SQUARE_BRACKET, CLOSING_SQUARE_BRACKET, OPENING_CURLY_BRACKET, CLOSING_CURLY_BRACKET,
+		COMPARE_OPERATOR, LOGICAL_OPERATOR, COMPOUND_ASSIGN_OPERATOR, ASSIGN_OPERATOR, SHORT_INIT_OPERATOR, INCREMENT_OPERATOR, DECREMENT_OPERATOR,
+		UNARY_OPERATOR, BINARY_OPERATOR, COMMA, COLON, SEMICOLON, DOT, AT, PIPE, NEWLINE:
+		return true
+	}
+	return false
+}
+
+// specKeywordType: the token type of a reserved word, UNKNOWN if the word is an ordinary identifier.
+func specKeywordType(s string) TokenType {
+	switch s {
+	case "import":
+		return IMPORT
+	case "var":
+		return VAR_DEFINITION
+	case "func":
+		return FUNCTION_DEFINITION
+	case "return":
+		return RETURN
+	case "if":
+		return IF
+	case "else":
+		return ELSE
+	case "switch":
+		return SWITCH
+	case "case":
+		return CASE
+	case "default":
+		return DEFAULT
+	case "for":
+		return FOR
+	case "range":
+		return RANGE
+	case "break":
+		return BREAK
+	case "continue":
+		return CONTINUE
+	case "nil":
+		return NIL_LITERAL
+	case "len":
+		return LEN
+	case "print":
+		return PRINT
+	case "input":
+		return INPUT
+	case "copy":
+		return COPY
+	case "itoa":
+		return ITOA
+	case "exists":
+		return EXISTS
+	case "read":
+		return READ
+	case "write":
+		return WRITE
+	case "panic":
+		return PANIC
+	case "bool", "int", "string", "error":
+		return DATA_TYPE
+	}
+	return UNKNOWN
+}
+
+// The operator table is scanned front to back and the first entry that matches wins: a spelling
+// that is a prefix of a longer one ("=" of "==", "|" of "||") must come after it, or the longer
+// operator could never be recognised (longest match).  Every entry denotes what the grammar says,
+// no spelling occurs twice (a consequence of the ordering), and there are as many entries as
+// spellings, so every operator of the grammar is in the table.
+//@ func Tokenize
+//@   lemma[C11] longer-operators-come-first: forall(i, 0, len(nonAlphabeticTokens), forall(j, i + 1, len(nonAlphabeticTokens), !hasPrefix(nonAlphabeticTokens[j].value, nonAlphabeticTokens[i].value)))
+//@   lemma[C11] every-symbol-has-its-token-type: len(nonAlphabeticTokens) == 38 && forall(k, 0, len(nonAlphabeticTokens), specSymbolType(nonAlphabeticTokens[k].value) != UNKNOWN && nonAlphabeticTokens[k].tokenType == specSymbolType(nonAlphabeticTokens[k].value))
+//@   lemma[C11] reserved-words-are-exactly-the-keywords: forallstr(s, has(keywords, s) == (specKeywordType(s) != UNKNOWN) && (has(keywords, s) ==> get(keywords, s) == specKeywordType(s)))
